@@ -33,7 +33,7 @@ WEIGHTS = {"undo": 3, "redo": 3, "paint": 5, "swap": 2.5}
 
 def plan(tier, seed):
     # + the repository's own test-suite, unedited, as one more workload under the same monitor
-    return common.session_plan(PROP, tier, seed, quick=2000, thorough=30000) + [common.pytest_spec()]
+    return common.session_plan(PROP, tier, seed, quick=6000, thorough=60000) + [common.pytest_spec()]
 
 
 def run_shard(spec):
